@@ -184,7 +184,11 @@ def _canonicalise(tree):
     * `pass` statements that share a block with other statements are dropped;
     * `if c: <body that always leaves> else: B` becomes the `if` followed by B
       (an `elif` chain is an else holding one `if`, and is dissolved the same
-      way) - the early-exit form and the if/else form of the same code are one.
+      way) - the early-exit form and the if/else form of the same code are one;
+    * of the two arms of a conditional the one that always leaves comes first
+      (the test is negated if need be), of two leaving arms the shorter one;
+      where that does not decide, the test carries no leading `not` -
+      `if not c: A else: B` is `if c: B else: A`.
     """
     changed = True
     while changed:
@@ -201,6 +205,22 @@ def _canonicalise(tree):
                 new = []
                 for st in blk:
                     new.append(st)
+                    if isinstance(st, ast.If) and st.orelse:
+                        lb, lo = _always_leaves(st.body), _always_leaves(st.orelse)
+                        negated = isinstance(st.test, ast.UnaryOp) and isinstance(st.test.op, ast.Not)
+                        # the arm that leaves comes first; of two leaving arms the
+                        # shorter one (the guard clause); otherwise the test carries no 'not'
+                        if lb and lo:
+                            sb = sum(1 for s_ in st.body for _ in ast.walk(s_))
+                            so = sum(1 for s_ in st.orelse for _ in ast.walk(s_))
+                            swap = so < sb or (so == sb and negated)
+                        else:
+                            swap = (lo and not lb) or (not lb and not lo and negated)
+                        if swap:
+                            st.test = st.test.operand if negated else ast.copy_location(
+                                ast.UnaryOp(op=ast.Not(), operand=st.test), st.test)
+                            st.body, st.orelse = st.orelse, st.body
+                            changed = True
                     if isinstance(st, ast.If) and st.orelse and _always_leaves(st.body):
                         new.extend(st.orelse)
                         st.orelse = []
@@ -267,7 +287,8 @@ class Program:
             tree = ast.parse(src, filename=path)
         except SyntaxError as e:
             raise AnalysisError(f"cannot parse {rel}: {e}")
-        _canonicalise(tree)
+        if not trusted:
+            _canonicalise(tree)      # trusted library files are read as they are
         m = Module(modname, path, rel, src, tree, trusted=trusted)
         m.is_pkg = is_pkg
         m.imports = _import_table(_module_level_imports(tree), modname, is_pkg)
